@@ -445,6 +445,14 @@ class modict(odict):
         super(modict, self).__init__()  # must do this first
         self.update(*pa, **kwa)
 
+    def __reduce__(self):
+        """
+        Pickle and copy all the values of every key.
+        Inherited odict state is .items() which for modict is only the newest
+        value of each key and the default reduce also replays .items()
+        """
+        return (self.__class__, tuple(), self.allitems())
+
     def __getitem__(self, key):
         return super(modict, self).__getitem__(key)[-1] #newest
     def __setitem__(self, key, value):
